@@ -14,8 +14,17 @@ open Cassis.TS Cassis.Lex
 
 /-! ### one member of one view -/
 
-def addMember1 (ts : TypeSystem) (ci : Nat) (h : Handle) (conv : Offsets.Conv) (fss : List (Int × Nat))
-    (m : Int) (b : Build) : Except Err Build :=
+/-- the member's own sofa value (first seen) and the updated record of them -/
+def memberOwn (m : Int) (a : Nat) (b : Build) : Option Val × List (Int × Val) :=
+  match b.memberSofas.find? (fun q => q.1 == m) with
+  | some q => (some q.2, b.memberSofas)
+  | none =>
+    match slot b.heap a "sofa" with
+    | some v => (some v, b.memberSofas ++ [(m, v)])
+    | none => (none, b.memberSofas)
+
+def addMember1 (ts : TypeSystem) (ci : Nat) (h : Handle) (conv : Offsets.Conv) (sofas : List (Int × PSofa))
+    (fss : List (Int × Nat)) (m : Int) (b : Build) : Except Err Build :=
   match lookupFs fss m with
   | .error e => .error e
   | .ok a =>
@@ -23,8 +32,8 @@ def addMember1 (ts : TypeSystem) (ci : Nat) (h : Handle) (conv : Offsets.Conv) (
     | none => .error .attributeError
     | some o =>
       let r : Except Err (Heap × List Int) :=
-        if isInstanceOf ts o.ty ANNOTATION then
-          match convertOffsets conv b.heap a with
+        if (!(b.converted.contains m) && isInstanceOf ts o.ty ANNOTATION) = true then
+          match convertOffsets (ownConv sofas conv (memberOwn m a b).1) b.heap a with
           | .error e => .error e
           | .ok hp' => .ok (hp', b.converted ++ [m])
         else .ok (b.heap, b.converted)
@@ -33,17 +42,17 @@ def addMember1 (ts : TypeSystem) (ci : Nat) (h : Handle) (conv : Offsets.Conv) (
       | .ok (hp1, cv1) =>
         match Cas.add ts ci b.cas hp1 h a true with
         | .error e => .error e
-        | .ok (c', hp2) => .ok { cas := c', heap := hp2, converted := cv1 }
+        | .ok (c', hp2) => .ok { cas := c', heap := hp2, converted := cv1, memberSofas := (memberOwn m a b).2 }
 
-theorem addMembers_nil (ts : TypeSystem) (ci : Nat) (h : Handle) (conv : Offsets.Conv) (L : List Int)
-    (fss : List (Int × Nat)) (b : Build) : addMembers ts ci h conv L fss [] b = .ok b := by
+theorem addMembers_nil (ts : TypeSystem) (ci : Nat) (h : Handle) (conv : Offsets.Conv) (sofas : List (Int × PSofa))
+    (L : List Int) (fss : List (Int × Nat)) (b : Build) : addMembers ts ci h conv sofas L fss [] b = .ok b := by
   rw [addMembers]
 
-theorem addMembers_cons (ts : TypeSystem) (ci : Nat) (h : Handle) (conv : Offsets.Conv) (L : List Int)
-    (fss : List (Int × Nat)) (m : Int) (ms : List Int) (b : Build) :
-    addMembers ts ci h conv L fss (m :: ms) b =
-      if L.contains m then addMembers ts ci h conv L fss ms b
-      else (addMember1 ts ci h conv fss m b).bind (addMembers ts ci h conv L fss ms) := by
+theorem addMembers_cons (ts : TypeSystem) (ci : Nat) (h : Handle) (conv : Offsets.Conv) (sofas : List (Int × PSofa))
+    (L : List Int) (fss : List (Int × Nat)) (m : Int) (ms : List Int) (b : Build) :
+    addMembers ts ci h conv sofas L fss (m :: ms) b =
+      if L.contains m then addMembers ts ci h conv sofas L fss ms b
+      else (addMember1 ts ci h conv sofas fss m b).bind (addMembers ts ci h conv sofas L fss ms) := by
   rw [addMembers]
   unfold addMember1
   split
@@ -56,27 +65,58 @@ theorem addMembers_cons (ts : TypeSystem) (ci : Nat) (h : Handle) (conv : Offset
       | none => rfl
       | some o =>
         dsimp only
-        by_cases hi : isInstanceOf ts o.ty ANNOTATION = true
-        · rw [if_pos hi, if_pos hi]
-          cases convertOffsets conv b.heap a with
-          | error e => rfl
-          | ok hp' =>
+        have key : ∀ X : Option Val × List (Int × Val), X = memberOwn m a b →
+            (match X with
+              | (own, ms') =>
+                match (if (!(b.converted.contains m) && isInstanceOf ts o.ty ANNOTATION) = true then
+                    match convertOffsets (ownConv sofas conv own) b.heap a with
+                    | .error e => Except.error e
+                    | .ok hp' => .ok (hp', b.converted ++ [m])
+                  else .ok (b.heap, b.converted) : Except Err (Heap × List Int)) with
+                | .error e => Except.error e
+                | .ok (hp1, cv1) =>
+                  match Cas.add ts ci b.cas hp1 h a true with
+                  | .error e => .error e
+                  | .ok (c', hp2) =>
+                    addMembers ts ci h conv sofas L fss ms { cas := c', heap := hp2, converted := cv1, memberSofas := ms' }) =
+              ((match (if (!(b.converted.contains m) && isInstanceOf ts o.ty ANNOTATION) = true then
+                    match convertOffsets (ownConv sofas conv (memberOwn m a b).1) b.heap a with
+                    | .error e => Except.error e
+                    | .ok hp' => .ok (hp', b.converted ++ [m])
+                  else .ok (b.heap, b.converted) : Except Err (Heap × List Int)) with
+                | .error e => Except.error e
+                | .ok (hp1, cv1) =>
+                  match Cas.add ts ci b.cas hp1 h a true with
+                  | .error e => .error e
+                  | .ok (c', hp2) => .ok { cas := c', heap := hp2, converted := cv1, memberSofas := (memberOwn m a b).2 } :
+                  Except Err Build).bind (addMembers ts ci h conv sofas L fss ms)) := by
+          intro X hX
+          subst hX
+          generalize memberOwn m a b = Y
+          obtain ⟨own, ms'⟩ := Y
+          dsimp only
+          by_cases hi : (!(b.converted.contains m) && isInstanceOf ts o.ty ANNOTATION) = true
+          · rw [if_pos hi]
+            cases convertOffsets (ownConv sofas conv own) b.heap a with
+            | error e => rfl
+            | ok hp' =>
+              dsimp only
+              cases Cas.add ts ci b.cas hp' h a true with
+              | error e => rfl
+              | ok r => rfl
+          · rw [if_neg hi]
             dsimp only
-            cases Cas.add ts ci b.cas hp' h a true with
+            cases Cas.add ts ci b.cas b.heap h a true with
             | error e => rfl
             | ok r => rfl
-        · rw [if_neg hi, if_neg hi]
-          dsimp only
-          cases Cas.add ts ci b.cas b.heap h a true with
-          | error e => rfl
-          | ok r => rfl
+        exact key _ (by unfold memberOwn; rfl)
 
 /-! ### `buildCas_skip_eq_dropped` -/
 
-theorem addMembers_skip_eq (ts : TypeSystem) (ci : Nat) (h : Handle) (conv : Offsets.Conv) (L : List Int)
-    (fss : List (Int × Nat)) (ms : List Int) (b : Build) :
-    addMembers ts ci h conv L fss ms b =
-      addMembers ts ci h conv [] fss (ms.filter (fun m => !(L.contains m))) b := by
+theorem addMembers_skip_eq (ts : TypeSystem) (ci : Nat) (h : Handle) (conv : Offsets.Conv) (sofas : List (Int × PSofa))
+    (L : List Int) (fss : List (Int × Nat)) (ms : List Int) (b : Build) :
+    addMembers ts ci h conv sofas L fss ms b =
+      addMembers ts ci h conv sofas [] fss (ms.filter (fun m => !(L.contains m))) b := by
   induction ms generalizing b with
   | nil => rfl
   | cons m ms ih =>
@@ -86,7 +126,7 @@ theorem addMembers_skip_eq (ts : TypeSystem) (ci : Nat) (h : Handle) (conv : Off
       exact ih b
     · rw [if_neg hm, List.filter_cons_of_pos (by rw [Bool.not_eq_true] at hm; rw [hm]; rfl), addMembers_cons,
         if_neg (by exact Bool.false_ne_true)]
-      cases addMember1 ts ci h conv fss m b with
+      cases addMember1 ts ci h conv sofas fss m b with
       | error e => rfl
       | ok b' => exact ih b'
 
@@ -116,7 +156,7 @@ theorem buildView_eq (ts : TypeSystem) (ci : Nat) (lenient : Bool) (p : Pass1) (
     buildView ts ci lenient p s b =
       match viewCas s b.cas with
       | .error e => .error e
-      | .ok c2 => addMembers ts ci { view := s.sofaID, lenient := lenient } (convOfText s.text) p.lenientIds p.fss
+      | .ok c2 => addMembers ts ci { view := s.sofaID, lenient := lenient } (convOfText s.text) p.sofas p.lenientIds p.fss
           (membersOf p.views s) { b with cas := c2 } := by
   unfold buildView viewCas membersOf
   dsimp only
@@ -154,7 +194,7 @@ theorem buildView_drop (ts : TypeSystem) (ci : Nat) (lenient : Bool) (p : Pass1)
   | ok c2 =>
     dsimp only
     rw [addMembers_skip_eq]
-    show _ = addMembers ts ci _ _ [] p.fss (membersOf (p.views.map (fun q => (q.1, dropMembersPV p.lenientIds q.2))) s) _
+    show _ = addMembers ts ci _ _ p.sofas [] p.fss (membersOf (p.views.map (fun q => (q.1, dropMembersPV p.lenientIds q.2))) s) _
     rw [membersOf_drop]
 
 theorem buildViews_drop (ts : TypeSystem) (ci : Nat) (lenient : Bool) (p : Pass1) (l : List (Int × PSofa)) (b : Build) :
@@ -188,8 +228,14 @@ theorem buildCas_skip_eq_dropped_aux (K : Consts) (ts : TypeSystem) (ci : Nat) (
   | error e => rfl
   | ok b =>
     dsimp only
-    rw [convertReferenced_congr ts p (dropMembers p.lenientIds p) rfl]
-    rfl
+    have hf : (dropMembers p.lenientIds p).fss = p.fss := rfl
+    rw [hf]
+    cases rehome p.fss b.memberSofas b.heap with
+    | error e => rfl
+    | ok hpR =>
+      dsimp only
+      rw [convertReferenced_congr ts p (dropMembers p.lenientIds p) rfl]
+      rfl
 
 
 /-! ### frames: the type of an object never changes -/
@@ -289,10 +335,10 @@ theorem lookupFs_mem {fss : List (Int × Nat)} {i : Int} {a : Nat} (h : lookupFs
     exact ⟨p, List.mem_of_find?_eq_some hf, rfl⟩
   · cases h
 
-theorem addMember1_flag (ts : TypeSystem) (ci : Nat) (v : String) (conv : Offsets.Conv) (fss : List (Int × Nat))
-    (m : Int) (b : Build) (hk : FssK ts fss b.heap) :
-    addMember1 ts ci { view := v, lenient := false } conv fss m b =
-      addMember1 ts ci { view := v, lenient := true } conv fss m b := by
+theorem addMember1_flag (ts : TypeSystem) (ci : Nat) (v : String) (conv : Offsets.Conv) (sofas : List (Int × PSofa))
+    (fss : List (Int × Nat)) (m : Int) (b : Build) (hk : FssK ts fss b.heap) :
+    addMember1 ts ci { view := v, lenient := false } conv sofas fss m b =
+      addMember1 ts ci { view := v, lenient := true } conv sofas fss m b := by
   unfold addMember1
   cases hl : lookupFs fss m with
   | error e => rfl
@@ -303,9 +349,9 @@ theorem addMember1_flag (ts : TypeSystem) (ci : Nat) (v : String) (conv : Offset
     | none => rfl
     | some o =>
       dsimp only
-      by_cases hi : isInstanceOf ts o.ty ANNOTATION = true
+      by_cases hi : (!(b.converted.contains m) && isInstanceOf ts o.ty ANNOTATION) = true
       · rw [if_pos hi]
-        cases hc : convertOffsets conv b.heap q.2 with
+        cases hc : convertOffsets (ownConv sofas conv (memberOwn m q.2 b).1) b.heap q.2 with
         | error e => rfl
         | ok hp' =>
           dsimp only
@@ -314,8 +360,9 @@ theorem addMember1_flag (ts : TypeSystem) (ci : Nat) (v : String) (conv : Offset
         dsimp only
         rw [Cas.add_lenient_eq (h := { view := v, lenient := false }) (hk q hq)]
 
-theorem addMember1_ty {ts : TypeSystem} {ci : Nat} {h : Handle} {conv : Offsets.Conv} {fss : List (Int × Nat)}
-    {m : Int} {b b' : Build} (hb : addMember1 ts ci h conv fss m b = .ok b') : TyBack b.heap b'.heap := by
+theorem addMember1_ty {ts : TypeSystem} {ci : Nat} {h : Handle} {conv : Offsets.Conv} {sofas : List (Int × PSofa)}
+    {fss : List (Int × Nat)} {m : Int} {b b' : Build} (hb : addMember1 ts ci h conv sofas fss m b = .ok b') :
+    TyBack b.heap b'.heap := by
   unfold addMember1 at hb
   cases hl : lookupFs fss m with
   | error e => rw [hl] at hb; cases hb
@@ -327,9 +374,9 @@ theorem addMember1_ty {ts : TypeSystem} {ci : Nat} {h : Handle} {conv : Offsets.
     | some o =>
       rw [ho] at hb
       dsimp only at hb
-      by_cases hi : isInstanceOf ts o.ty ANNOTATION = true
+      by_cases hi : (!(b.converted.contains m) && isInstanceOf ts o.ty ANNOTATION) = true
       · rw [if_pos hi] at hb
-        cases hc : convertOffsets conv b.heap a with
+        cases hc : convertOffsets (ownConv sofas conv (memberOwn m a b).1) b.heap a with
         | error e => rw [hc] at hb; cases hb
         | ok hp' =>
           rw [hc] at hb
@@ -351,9 +398,9 @@ theorem addMember1_ty {ts : TypeSystem} {ci : Nat} {h : Handle} {conv : Offsets.
           cases hb
           exact add_ty hadd
 
-theorem addMembers_ty {ts : TypeSystem} {ci : Nat} {h : Handle} {conv : Offsets.Conv} {L : List Int}
-    {fss : List (Int × Nat)} {ms : List Int} {b b' : Build}
-    (hb : addMembers ts ci h conv L fss ms b = .ok b') : TyBack b.heap b'.heap := by
+theorem addMembers_ty {ts : TypeSystem} {ci : Nat} {h : Handle} {conv : Offsets.Conv} {sofas : List (Int × PSofa)}
+    {L : List Int} {fss : List (Int × Nat)} {ms : List Int} {b b' : Build}
+    (hb : addMembers ts ci h conv sofas L fss ms b = .ok b') : TyBack b.heap b'.heap := by
   induction ms generalizing b with
   | nil => rw [addMembers_nil] at hb; cases hb; exact TyBack.refl _
   | cons m ms ih =>
@@ -361,24 +408,24 @@ theorem addMembers_ty {ts : TypeSystem} {ci : Nat} {h : Handle} {conv : Offsets.
     by_cases hm : L.contains m = true
     · rw [if_pos hm] at hb; exact ih hb
     · rw [if_neg hm] at hb
-      cases h1 : addMember1 ts ci h conv fss m b with
+      cases h1 : addMember1 ts ci h conv sofas fss m b with
       | error e => rw [h1] at hb; cases hb
       | ok b1 =>
         rw [h1] at hb
         exact (addMember1_ty h1).trans (ih hb)
 
-theorem addMembers_flag (ts : TypeSystem) (ci : Nat) (v : String) (conv : Offsets.Conv) (L : List Int)
-    (fss : List (Int × Nat)) (ms : List Int) (b : Build) (hk : FssK ts fss b.heap) :
-    addMembers ts ci { view := v, lenient := false } conv L fss ms b =
-      addMembers ts ci { view := v, lenient := true } conv L fss ms b := by
+theorem addMembers_flag (ts : TypeSystem) (ci : Nat) (v : String) (conv : Offsets.Conv) (sofas : List (Int × PSofa))
+    (L : List Int) (fss : List (Int × Nat)) (ms : List Int) (b : Build) (hk : FssK ts fss b.heap) :
+    addMembers ts ci { view := v, lenient := false } conv sofas L fss ms b =
+      addMembers ts ci { view := v, lenient := true } conv sofas L fss ms b := by
   induction ms generalizing b with
   | nil => rw [addMembers_nil, addMembers_nil]
   | cons m ms ih =>
     rw [addMembers_cons, addMembers_cons]
     by_cases hm : L.contains m = true
     · rw [if_pos hm, if_pos hm]; exact ih b hk
-    · rw [if_neg hm, if_neg hm, addMember1_flag ts ci v conv fss m b hk]
-      cases h1 : addMember1 ts ci { view := v, lenient := true } conv fss m b with
+    · rw [if_neg hm, if_neg hm, addMember1_flag ts ci v conv sofas fss m b hk]
+      cases h1 : addMember1 ts ci { view := v, lenient := true } conv sofas fss m b with
       | error e => rfl
       | ok b1 => exact ih b1 (hk.back (addMember1_ty h1))
 
@@ -387,7 +434,7 @@ theorem buildView_flag (ts : TypeSystem) (ci : Nat) (p : Pass1) (s : PSofa) (b :
   rw [buildView_eq, buildView_eq]
   cases viewCas s b.cas with
   | error e => rfl
-  | ok c2 => exact addMembers_flag ts ci _ _ _ _ _ _ hk
+  | ok c2 => exact addMembers_flag ts ci _ _ _ _ _ _ _ hk
 
 theorem buildView_ty {ts : TypeSystem} {ci : Nat} {lenient : Bool} {p : Pass1} {s : PSofa} {b b' : Build}
     (hb : buildView ts ci lenient p s b = .ok b') : TyBack b.heap b'.heap := by
